@@ -394,6 +394,50 @@ theorem louvain_estimator_valid {argsort : List Int → List Nat} (hs : ∀ key,
 example : louvainEstimator argsortStable exKernel (-1) 6 2 3 4 false true [4, 2, 0, 3, 1] true true
     = .ok (some (⟨[0, 0], some [0, 0], some [0, 0, 1]⟩, 2)) := by decide
 
+/-- ★★ `Leiden.fit` from the shape of the input -/
+theorem leiden_estimator_valid {argsort : List Int → List Nat} (hs : ∀ key, IsArgsort key (argsort key))
+    {kernel : Nat → List Nat → List Int × Bool} {refine : Nat → List Nat → List Int}
+    (hk : LeidenContract kernel refine) (nAgg : Int) (fuel : Nat)
+    {nRow nCol nnz : Nat} (hr : 0 < nRow) (hnnz : 0 < nnz) (forceBipartite : Bool)
+    (sortClusters shuffle : Bool) {index : List Nat}
+    (hidx : shuffle = true → index.Perm
+      (List.range (if (forceBipartite || nRow != nCol) = true then nRow + nCol else nRow))) :
+    let bip := forceBipartite || nRow != nCol
+    let N := if bip = true then nRow + nCol else nRow
+    leidenEstimator argsort kernel refine nAgg fuel nRow nCol nnz forceBipartite true index sortClusters shuffle
+      = .ok none ∨
+    ∃ f count, leidenEstimator argsort kernel refine nAgg fuel nRow nCol nnz forceBipartite true index sortClusters
+        shuffle = .ok (some (f, count)) ∧
+      ValidClustering N (allLabels f) sortClusters ∧
+      (if bip = true then f.labelsRow = some f.labels ∧ f.labels.length = nRow ∧
+          ∃ c, f.labelsCol = some c ∧ c.length = nCol
+       else f.labelsRow = none ∧ f.labelsCol = none ∧ f.labels.length = nRow) := by
+  intro bip N
+  have hz : (nnz == 0) = false := by simp; omega
+  have hN : 0 < N := by simp only [N]; split <;> omega
+  have heq : leidenEstimator argsort kernel refine nAgg fuel nRow nCol nnz forceBipartite true index sortClusters
+      shuffle = leidenFit argsort kernel refine nAgg fuel N index sortClusters shuffle bip nRow := by
+    simp [leidenEstimator, routeInput, hz, bip, N]
+  rw [heq]
+  rcases leidenFit_spec hs hk nAgg fuel hN sortClusters shuffle bip nRow hidx with h | ⟨f, c, h, hv, hsplit⟩
+  · exact Or.inl h
+  · refine Or.inr ⟨f, c, h, hv, ?_⟩
+    have hlen : (allLabels f).length = N := hv.1
+    rw [hsplit]
+    exact split_vars_shape bip nRow nCol (allLabels f) hlen
+
+/-- `_aggregate_refine`: the labels handed to the next round of Leiden
+    (`membership_refined.T.dot(membership).indices`) have one entry per refined cluster — the coarse label of its
+    members — provided refined clusters lie inside coarse clusters -/
+theorem leiden_next_labels {labels refined : List Nat} {kRef : Nat} (hlen : labels.length = refined.length)
+    (hc : Contiguous refined kRef)
+    (hw : ∀ i j : Nat, i < refined.length → j < refined.length → refined[i]? = refined[j]? → labels[i]? = labels[j]?) :
+    (refinedToCoarse labels refined kRef).length = kRef ∧
+    ∀ i, i < refined.length → (refinedToCoarse labels refined kRef)[refined.getD i 0]? = labels[i]? :=
+  refinedToCoarse_spec hlen hc hw
+
+example : refinedToCoarse [0, 0, 1, 1, 0] [2, 0, 1, 1, 0] 3 = [0, 1, 0] := by decide
+
 /-- ★★ the same for `PropagationClustering.fit`, for any labels the sweeps leave on the nodes of the adjacency -/
 theorem propagation_estimator_valid {argsort : List Int → List Nat} (hs : ∀ key, IsArgsort key (argsort key))
     {sweeps : Nat → List Int} (hsw : ∀ n, (sweeps n).length = n)
